@@ -57,6 +57,7 @@ theorem evalNetNode_resolve (env : Env) (tbl : List Nat) (vals : Vals) (h : TblI
   | input k => rfl
   | signal => simp only [gather_resolve tbl vals h]
   | node k ty => simp only [gather_resolve tbl vals h]
+  | tristate k => simp only [gather_resolve tbl vals h]
 
 theorem getD_append_lt {α : Type} (l : List α) (x d : α) (j : Nat) (h : j < l.length) : (l ++ [x]).getD j d = l.getD j d := by
   simp [List.getD_eq_getElem?_getD, List.getElem?_append_left h]
